@@ -1,5 +1,254 @@
-"""C15 correspondence (b): EDIF reference resolution, implementation vs the Lean model `resolve`."""
+"""C15 correspondence (b): EDIF reference resolution, implementation vs the Lean model `resolve`.
+
+The declaration/reference event stream is extracted from the TEXT by a small s-expression scan written
+here (nothing of the reader is used).  Compared: accepted/rejected, and — when both accept — what every
+instance, every joined pin and the design resolve to."""
+import json
+
+from engines import io_engine_texts as T
+
+SIG_DESIGN = "edif.design.undeclared_target_accepted"
+
+
+def sexp(text):
+    sp = T.spans_edif(text)
+    tok = [text[a:b] for a, b in sp]
+    pos = 0
+
+    def rd():
+        nonlocal pos
+        if pos >= len(tok):
+            raise ValueError("eof")
+        t = tok[pos]
+        pos += 1
+        if t == "(":
+            out = []
+            while True:
+                if pos >= len(tok):
+                    raise ValueError("eof")
+                if tok[pos] == ")":
+                    pos += 1
+                    return out
+                out.append(rd())
+        if t == ")":
+            raise ValueError("unbalanced")
+        return t
+    try:
+        tree = rd()
+    except (ValueError, RecursionError):
+        return None
+    if pos != len(tok) or not isinstance(tree, list):
+        return None
+    return tree
+
+
+def head(x):
+    return x[0].lower() if isinstance(x, list) and x and isinstance(x[0], str) else None
+
+
+def name_of(x):
+    """identifier of a nameDef: atom | (rename id "orig")"""
+    if isinstance(x, str):
+        return x
+    if head(x) == "rename" and len(x) >= 2 and isinstance(x[1], str):
+        return x[1]
+    raise ValueError("namedef")
+
+
+def events(tree):
+    """-> (events, cellpos) or None when the shape is outside what is modelled.
+    cellpos: event position of a cell -> (library index, cell index)"""
+    try:
+        if head(tree) != "edif":
+            return None
+        evs = []
+        cellpos = {}
+        li = -1
+        for ch in tree[2:]:
+            h = head(ch)
+            if h in ("library", "external"):
+                li += 1
+                evs.append({"e": "lib", "id": name_of(ch[1])})
+                ci = -1
+                for c in ch[2:]:
+                    if head(c) != "cell":
+                        continue
+                    ci += 1
+                    views = [v for v in c[2:] if head(v) == "view"]
+                    if len(views) != 1:
+                        return None
+                    v = views[0]
+                    ports = []
+                    contents = []
+                    for part in v[2:]:
+                        if head(part) == "interface":
+                            for p in part[1:]:
+                                if head(p) != "port":
+                                    continue
+                                nd = p[1]
+                                if head(nd) == "array":
+                                    w = 1
+                                    for d in nd[2:]:
+                                        w *= int(d)
+                                    ports.append([name_of(nd[1]), w])
+                                else:
+                                    ports.append([name_of(nd), 1])
+                        elif head(part) == "contents":
+                            contents = part[1:]
+                    cellpos[len(evs)] = (li, ci)
+                    evs.append({"e": "cell", "id": name_of(c[1]), "view": name_of(v[1]), "ports": ports})
+                    for it in contents:
+                        if head(it) == "instance":
+                            vr = [x for x in it[2:] if head(x) == "viewref"]
+                            if len(vr) != 1:
+                                return None
+                            vr = vr[0]
+                            cell = lib = None
+                            cr = [x for x in vr[2:] if head(x) == "cellref"]
+                            if cr:
+                                cell = cr[0][1]
+                                lr = [x for x in cr[0][2:] if head(x) == "libraryref"]
+                                if lr:
+                                    lib = lr[0][1]
+                            if not all(isinstance(z, str) for z in (vr[1],)) or (cell is not None and not isinstance(cell, str)):
+                                return None
+                            evs.append({"e": "inst", "id": name_of(it[1]), "view": vr[1], "cell": cell, "lib": lib})
+                        elif head(it) == "net":
+                            for j in it[2:]:
+                                if head(j) != "joined":
+                                    continue
+                                for pr in j[1:]:
+                                    if head(pr) != "portref":
+                                        return None
+                                    tgt = pr[1]
+                                    member = None
+                                    if head(tgt) == "member":
+                                        if len(tgt) != 3:
+                                            return None
+                                        port = name_of(tgt[1])
+                                        member = int(tgt[2])
+                                        if member < 0:
+                                            return None
+                                    elif isinstance(tgt, str):
+                                        port = tgt
+                                    else:
+                                        return None
+                                    ir = [x for x in pr[2:] if head(x) == "instanceref"]
+                                    inst = ir[0][1] if ir else None
+                                    if inst is not None and not isinstance(inst, str):
+                                        return None
+                                    evs.append({"e": "portRef", "port": port, "member": member, "inst": inst})
+                    evs.append({"e": "endCell"})
+                evs.append({"e": "endLib"})
+            elif h == "design":
+                cr = [x for x in ch[2:] if head(x) == "cellref"]
+                if len(cr) != 1:
+                    return None
+                lr = [x for x in cr[0][2:] if head(x) == "libraryref"]
+                if len(lr) != 1 or not isinstance(cr[0][1], str) or not isinstance(lr[0][1], str):
+                    return None
+                evs.append({"e": "design", "cell": cr[0][1], "lib": lr[0][1]})
+        return evs, cellpos
+    except (ValueError, IndexError, TypeError):
+        return None
+
+
+def impl_refs(nl):
+    """what the implementation resolved, positionally (runs in the attempt's child)"""
+    libs = list(nl.libraries)
+    dpos = {}
+    for li, lib in enumerate(libs):
+        for di, d in enumerate(lib.definitions):
+            dpos[id(d)] = [li, di]
+    out = {"insts": [], "pins": [], "top": None}
+    for li, lib in enumerate(libs):
+        for di, d in enumerate(lib.definitions):
+            kids = list(d.children)
+            kpos = {id(k): i for i, k in enumerate(kids)}
+            out["insts"].append([[li, di], [dpos.get(id(k.reference)) for k in kids]])
+            pins = []
+            for c in d.cables:
+                for w in c.wires:
+                    for x in w.pins:
+                        if hasattr(x, "inner_pin") and x.instance is not None:
+                            q = x.inner_pin
+                            port = q.port
+                            r = x.instance.reference
+                            pins.append([kpos.get(id(x.instance), -2), dpos.get(id(r)), list(r.ports).index(port), list(port.pins).index(q)])
+                        else:
+                            port = x.port
+                            pins.append([-1, [li, di], list(d.ports).index(port), list(port.pins).index(x)])
+            out["pins"].append([[li, di], sorted(pins, key=json.dumps)])
+    t = nl.top_instance
+    if t is not None and t.reference is not None:
+        out["top"] = dpos.get(id(t.reference))
+    return out
+
+
+def model_refs(evs, cellpos, refs):
+    """the model's resolution, in the same positional form"""
+    out = {"insts": [], "pins": [], "top": None}
+    cur = None
+    inst_idx = {}
+    rmap = {k: r for k, r in refs}
+    per_inst = {}
+    per_pins = {}
+    order = []
+    for k, e in enumerate(evs):
+        if e["e"] == "cell":
+            cur = cellpos[k]
+            order.append(cur)
+            per_inst[cur] = []
+            per_pins[cur] = []
+            inst_idx = {}
+        elif e["e"] == "inst":
+            inst_idx[k] = len(per_inst[cur])
+            per_inst[cur].append(list(cellpos[rmap[k]["at"]]))
+        elif e["e"] == "portRef":
+            r = rmap[k]
+            per_pins[cur].append([inst_idx[r["inst"]] if r["inst"] is not None else -1, list(cellpos[r["cell"]]), r["port"], r["bit"]])
+        elif e["e"] == "design":
+            out["top"] = list(cellpos[rmap[k]["at"]])
+    for c in order:
+        out["insts"].append([list(c), per_inst[c]])
+        out["pins"].append([list(c), sorted(per_pins[c], key=json.dumps)])
+    return out
 
 
 def check(sr, drv, inp, res):
-    return
+    c = inp.get("corruption", {"kind": "none"})
+    if c["kind"] not in ("none", "retarget", "recase"):
+        return
+    tree = sexp(inp["text"])
+    ex = events(tree) if tree is not None else None
+    if ex is None:
+        sr.dist("resolve.skip.shape")
+        return
+    evs, cellpos = ex
+    m = drv.ask({"fn": "resolve", "events": evs})
+    if "error" in m:
+        sr["obligations"].append(("driver answered resolve", False, str(m)[:400]))
+        return
+    brief = {"kind": "attempt", "fmt": "edif", "policy0": inp["policy0"], "corruption": c, "origin": inp.get("origin"), "text": inp["text"]}
+    is_design = c.get("ref", "").startswith("design.")
+    impl_ok = res["outcome"] == "ok"
+    sr.dist("resolve.%s.model_%s.impl_%s" % (c["kind"], "ok" if m["ok"] else m["err"].split(".")[-1], "ok" if impl_ok else "raise"))
+    # the Spec's notion of "never declared" on the stream: must be rejected by the implementation
+    if m["undeclared"] and impl_ok:
+        sig = SIG_DESIGN if is_design else "edif.%s.undeclared_target_accepted" % c.get("ref", "ref")
+        sr.spec_failure(sig, brief, "Spec hasUndeclared(stream) is true but the reader accepted the file")
+    if m["ok"] != impl_ok:
+        sr.corr_mismatch("resolve: accepted/rejected", brief, "ok" if impl_ok else "raise:" + res.get("family", "?"),
+                         "ok" if m["ok"] else m["err"], signature=SIG_DESIGN if (is_design and impl_ok) else None)
+        return
+    if not m["ok"]:
+        return
+    mr = model_refs(evs, cellpos, m["refs"])
+    ir = res.get("refs")
+    if ir is None:
+        return
+    if mr != ir:
+        what = "top" if mr["top"] != ir["top"] else ("insts" if mr["insts"] != ir["insts"] else "pins")
+        sr.corr_mismatch("resolve: what each reference resolves to (%s)" % what, brief,
+                         json.dumps(ir[what])[:300], json.dumps(mr[what])[:300],
+                         signature=SIG_DESIGN if what == "top" else None)
